@@ -262,6 +262,59 @@ Definition module_of (dt : string) : option string := assoc dt T_FIELD_MODULE.
 Definition accepts (O : oracle) (dt : string) (s : string) : bool :=
   match module_of dt with Some md => accepts_module O md s | None => false end.
 
+(* ---------- the unsafe decoders used at validation level 0 (field/*.py unsafe_decode) ----------
+   Python's int() and float() on 7-bit text: optional surrounding whitespace, optional sign, digits with single
+   underscores between them; float() also a fraction, an exponent, inf/infinity/nan in any case. *)
+Definition ws : re := Cls [(9, 13); (28, 32)]%N.
+Definition dig : re := Cls [(48, 57)]%N.
+Definition digits_u : re := Cat dig (Star (Cat (Opt (Chr "_")) dig)).
+Definition sign_opt : re := Opt (Cls [(43, 43); (45, 45)]%N).
+Definition re_py_int : re := Cat (Star ws) (Cat sign_opt (Cat digits_u (Star ws))).
+Definition ci (c : ascii) : re :=
+  let n := N_of_ascii c in Cls [(n, n); (n - 32, n - 32)]%N.        (* a lower-case letter in either case *)
+Fixpoint ci_word (s : string) : re := match s with EmptyString => Eps | String c r => Cat (ci c) (ci_word r) end.
+Definition expo : re := Cat (Cls [(69, 69); (101, 101)]%N) (Cat sign_opt digits_u).
+Definition re_py_float : re :=
+  Cat (Star ws) (Cat sign_opt (Cat
+    (Alt (Alt (Cat digits_u (Cat (Opt (Cat (Chr ".") (Opt digits_u))) (Opt expo)))
+              (Cat (Chr ".") (Cat digits_u (Opt expo))))
+         (Alt (ci_word "inf") (Alt (ci_word "infinity") (ci_word "nan"))))
+    (Star ws))).
+
+Fixpoint strip_loose (s : string) : string :=
+  match s with
+  | EmptyString => EmptyString
+  | String c r => let n := nat_of_ascii c in
+                  if ((9 <=? n)%nat && (n <=? 13)%nat) || ((28 <=? n)%nat && (n <=? 32)%nat) || Ascii.eqb c "_"
+                  then strip_loose r else String c (strip_loose r)
+  end.
+
+(* the value int() returns for a text it accepts *)
+Definition py_int_loose (s : string) : option Z := if matches re_py_int s then py_int_core (strip_loose s) else None.
+
+Definition unsafe_accepts_module (md : string) (s : string) : res unit :=
+  let int_ok := if matches re_py_int s then Ok tt else Err (G EFormat) in
+  if String.eqb md "integer" || String.eqb md "position_gfa1" then int_ok
+  else if String.eqb md "optional_integer" then (if String.eqb s "*" then Ok tt else int_ok)
+  else if String.eqb md "float" then (if matches re_py_float s then Ok tt else Err (G EFormat))
+  else if String.eqb md "char" then (if m re_field_char_validate_encoded s then Ok tt else Err (G EFormat))
+  else if String.eqb md "oriented_identifier_gfa2" then (if String.eqb s "" then Err (G EFormat) else Ok tt)
+  else if String.eqb md "oriented_identifier_list_gfa1" then
+    (if forallb (fun e => negb (String.eqb e "")) (split_on comma s) then Ok tt else Err (G EFormat))
+  else if String.eqb md "oriented_identifier_list_gfa2" then
+    (if forallb (fun e => negb (String.eqb e "")) (split_on space s) then Ok tt else Err (G EFormat))
+  else if String.eqb md "position_gfa2" then
+    match last_char s with
+    | None => Err (G EFormat)
+    | Some c =>
+        let t := if Ascii.eqb c "$" then drop_last s else s in
+        match py_int_loose t with
+        | None => Err (G EFormat)
+        | Some z => if Z.ltb z 0 then Err (G EValue) else Ok tt
+        end
+    end
+  else Ok tt.
+
 (* ---------- what the writer prints for an accepted field (encode (decode s)) ---------- *)
 Definition canon_int (s : string) : string := match py_int s with Some z => str_of_Z z | None => s end.
 
